@@ -362,6 +362,10 @@ func targeted() []Spec {
 		// self-destruct clean-up through both conversion messages, pair with two denominations
 		{ID: -13, Ops: []Op{coin(""), {K: "regerc20", A: "@0"}, sup("dcoin"), {K: "addcoin", A: "@0", MD: simpleMD("dcoin", "dcoin")}, {K: "destroy", A: "@0"}, {K: "convcoin", A: "dcoin"},
 			coin(""), {K: "regerc20", A: "@1"}, {K: "destroy", A: "@1"}, {K: "converc20", A: "@1", B: "@den1"}}},
+		// EqualMetadata's pointer comparison: after the clean-up the metadata of dcoin stays, so an identical
+		// second registration (RegisterCoin and AddCoin) is refused by verifyMetadata
+		{ID: -15, Ops: []Op{sup("dcoin"), {K: "regcoin", MD: simpleMD("dcoin", "dcoin")}, {K: "destroy", A: "@0"}, {K: "convcoin", A: "dcoin"},
+			{K: "regcoin", MD: simpleMD("dcoin", "dcoin")}, coin(""), {K: "regerc20", A: "@2"}, {K: "addcoin", A: "@2", MD: simpleMD("dcoin", "dcoin")}}},
 		// the masked Name test and the pointer comparison (same base twice: identical metadata, other name)
 		{ID: -14, Ops: []Op{sup("dcoin"), sup("ecoin"), {K: "regcoin", MD: simpleMD("dcoin", "dcoin")}, {K: "regcoin", MD: simpleMD("dcoin", "dcoin")}, {K: "regcoin", MD: simpleMD("dcoin", "Other name")},
 			{K: "regcoin", MD: simpleMD("ecoin", "dcoin")}, {K: "regcoin", MD: simpleMD("ecoin", "ecoin")}, {K: "enable", On: false}, {K: "toggle", A: "dcoin"}, {K: "convcoin", A: "dcoin"}, {K: "enable", On: true}}},
